@@ -14,6 +14,12 @@ ifeq ($(VARIANT),asan)
   CC := clang
   CFLAGS := -O1 -fno-omit-frame-pointer -fsanitize=address,undefined -fno-sanitize-recover=undefined $(COMMON)
 endif
+ifeq ($(VARIANT),asana)
+  # as asan, with assert() live - the configuration a plain cmake build (no build type) produces:
+  # an assertion a peer can trigger is an abort of the endpoint
+  CC := clang
+  CFLAGS := -O1 -fno-omit-frame-pointer -fsanitize=address,undefined -fno-sanitize-recover=undefined $(COMMON) -UNDEBUG
+endif
 ifeq ($(VARIANT),tsan)
   CC := clang
   CFLAGS := -O1 -fno-omit-frame-pointer -fsanitize=thread $(COMMON)
